@@ -50,6 +50,9 @@ def check(ctx, F):
     check_accumulators(ctx, F)
     check_marks(ctx, F)
     check_siblings(ctx, F)
+    # "in order ... no earlier task of that plan": the order is the plan's link list; its maintenance is shared with C07 (same rule instances)
+    from . import C07, C03
+    C07.check_link(C03._Alias(ctx, {"C07.link": "C06.exec-guards"}), F)
 
 
 def payload_flavour(F, b):
